@@ -48,6 +48,9 @@ def run(tier):
         log(f"[C13] large trees: " + ", ".join(f"{x['n']} files -> second run exit {x['second']['exit']}" for x in recs if x["kind"] == "large"))
         log(f"[C13] {sum(1 for x in recs if x['kind'] == 'seq')} sequential runs, {sum(1 for x in recs if x['kind'] == 'race')} stale-listing races "
             f"({sum(1 for x in recs if x['kind'] == 'race' and x['held'])} with the server actually held)")
+        if nr and not any(x["kind"] == "race" and x["held"] for x in recs):
+            # vacuity guard: the race clauses decide nothing if no server was ever held at its staging open / flock
+            raise vlib.ToolError("no stale-listing race could be produced (no server was held by the scheduling shim)")
         path = os.path.join(work, "hubsync.ndjson")
         with open(path, "w") as f:
             for e in recs:
